@@ -5,7 +5,7 @@
  "level": "U",
  "unwindset": {"ext2fs_find_first_zero_generic_bmap.0": 1, "ext2fs_find_first_zero_generic_bmap.1": 1},
  "unwind_reason": "the generic test_bmap loop (and the backward goto into the found: block) is unreachable when the backend provides find_first operations; the unwinding assertions prove exactly that",
- "tier": "wip",
+ "tier": "quick",
  "harness": "h_gen_ff",
  "defines": ["FF_OP=0", "GEN64_FF_BACKEND", "GEN64_CB_ENUM"],
  "enforce": ["ext2fs_find_first_zero_generic_bmap"],
@@ -26,7 +26,7 @@
  "level": "U",
  "unwindset": {"ext2fs_find_first_set_generic_bmap.0": 1, "ext2fs_find_first_set_generic_bmap.1": 1},
  "unwind_reason": "the generic test_bmap loop (and the backward goto into the found: block) is unreachable when the backend provides find_first operations; the unwinding assertions prove exactly that",
- "tier": "wip",
+ "tier": "quick",
  "harness": "h_gen_ff",
  "defines": ["FF_OP=1", "GEN64_FF_BACKEND", "GEN64_CB_ENUM"],
  "enforce": ["ext2fs_find_first_set_generic_bmap"],
@@ -47,7 +47,7 @@
  "level": "U",
  "unwindset": {"ext2fs_find_first_zero_generic_bmap.0": 2, "ext2fs_find_first_zero_generic_bmap.1": 2},
  "unwind_reason": "the scan loop is closed by its in-place loop contract; what is left are the two copies (base case / inductive step of the loop-contract instrumentation) of the backward `goto found`, a jump out of the loop into a block that returns - not a cycle; bound 2 = the jump is taken at most once, the unwinding assertions prove it",
- "tier": "wip",
+ "tier": "quick",
  "harness": "h_gen_ff_fallback",
  "defines": ["FF_OP=0", "GEN64_FF_FALLBACK", "GEN64_CB_ENUM"],
  "enforce": ["ext2fs_find_first_zero_generic_bmap"],
@@ -68,7 +68,7 @@
  "level": "U",
  "unwindset": {"ext2fs_find_first_set_generic_bmap.0": 2, "ext2fs_find_first_set_generic_bmap.1": 2},
  "unwind_reason": "the scan loop is closed by its in-place loop contract; what is left are the two copies (base case / inductive step of the loop-contract instrumentation) of the backward `goto found`, a jump out of the loop into a block that returns - not a cycle; bound 2 = the jump is taken at most once, the unwinding assertions prove it",
- "tier": "wip",
+ "tier": "quick",
  "harness": "h_gen_ff_fallback",
  "defines": ["FF_OP=1", "GEN64_FF_FALLBACK", "GEN64_CB_ENUM"],
  "enforce": ["ext2fs_find_first_set_generic_bmap"],
